@@ -225,13 +225,102 @@ fn raw(seq: i64) -> Event {
 
 // ───────────────────────────── C26 ─────────────────────────────
 
+/// A generated stream topology for the `topologies*` batches: a forest in which every stream has exactly one
+/// upstream (a raw event type or an earlier stream), so the property's precondition holds by construction.
+struct Topo {
+    with_ctx: String,
+    without_ctx: String,
+    raws: Vec<String>,
+    /// streams downstream of a stream (or raw type) whose consumers live in more than one context
+    behind_fanout: std::collections::BTreeSet<String>,
+}
+
+fn topology(tape: &mut Tape, nctx: usize, allow_fanout: bool) -> Topo {
+    let nstreams = tape.range(2, 5) as usize;
+    // upstream: Err(raw type) | Ok(stream index)
+    let mut ups: Vec<Result<usize, String>> = vec![];
+    let mut raws = vec!["Raw".to_string()];
+    for i in 0..nstreams {
+        if i == 0 {
+            ups.push(Err("Raw".into()));
+        } else if raws.len() < 2 && tape.chance(1, 6) {
+            raws.push("Raw2".into());
+            ups.push(Err("Raw2".into()));
+        } else {
+            ups.push(Ok(tape.draw(i as u64) as usize));
+        }
+    }
+    let mut has_consumer = vec![false; nstreams];
+    for u in ups.iter().flatten() {
+        has_consumer[*u] = true;
+    }
+    let mut with_ctx = String::new();
+    let mut without_ctx = String::new();
+    for i in 1..=nctx {
+        with_ctx.push_str(&format!("context c{}\n", i));
+    }
+    let mut ctx_of: Vec<u64> = vec![];
+    // contexts in which each stream's consumers live
+    let mut consumer_ctxs: Vec<std::collections::BTreeSet<u64>> = vec![Default::default(); nstreams];
+    for i in 0..nstreams {
+        let name = format!("S{}", i);
+        let mut ctx = tape.range(1, nctx as u64);
+        if let Ok(u) = &ups[i] {
+            // without fan-out every consumer of a stream lives in the context of its first consumer
+            if !allow_fanout {
+                if let Some(first) = consumer_ctxs[*u].iter().next() {
+                    ctx = *first;
+                }
+            }
+            consumer_ctxs[*u].insert(ctx);
+        }
+        ctx_of.push(ctx);
+        let src = match &ups[i] {
+            Err(raw) => raw.clone(),
+            Ok(u) => match tape.draw(4) {
+                0 => format!("S{} as up", u),
+                1 => format!("merge(S{})", u),
+                _ => format!("S{}", u),
+            },
+        };
+        let op = if !has_consumer[i] && tape.chance(1, 4) {
+            "  .window(2)\n  .aggregate(n: count(), lo: first(seq), hi: last(seq))\n  .emit(seq: lo, v: n, hi: hi)\n".to_string()
+        } else if tape.chance(1, 3) {
+            format!("  .where(v > {})\n  .emit(seq: seq, v: v)\n", tape.draw(3))
+        } else {
+            "  .emit(seq: seq, v: v)\n".to_string()
+        };
+        with_ctx.push_str(&format!("stream {} = {}\n  .context(c{})\n{}", name, src, ctx, op));
+        without_ctx.push_str(&format!("stream {} = {}\n{}", name, src, op));
+    }
+    let mut behind_fanout = std::collections::BTreeSet::new();
+    for i in 0..nstreams {
+        let mut cur = i;
+        loop {
+            match &ups[cur] {
+                Ok(u) => {
+                    if consumer_ctxs[*u].len() > 1 { behind_fanout.insert(format!("S{}", i)); break; }
+                    cur = *u;
+                }
+                Err(_) => break,
+            }
+        }
+    }
+    Topo { with_ctx, without_ctx, raws, behind_fanout }
+}
+
 fn run_c26(batch: &str, tape: &mut Tape, rep: &mut Report) {
+    let topo_mode = batch.starts_with("topologies");
     let nctx = tape.range(2, 3) as usize;
-    let stateful = tape.chance(1, 3);
-    let cap = if batch == "large-queues" { 1000 } else { tape.range(1, 8) as usize };
+    let stateful = if topo_mode { false } else { tape.chance(1, 3) };
+    let cap = if batch.ends_with("large-queues") || batch == "topologies-fanout" { 1000 } else { tape.range(1, 8) as usize };
     let n = tape.range(10, 60) as i64;
-    let src = program(nctx, stateful, true);
-    rep.config = format!("contexts={} last_stage_stateful={} channel_capacity={} inputs={}", nctx, stateful, cap, n);
+    let topo = if topo_mode { Some(topology(tape, nctx, batch == "topologies-fanout")) } else { None };
+    let src = match &topo { Some(t) => t.with_ctx.clone(), None => program(nctx, stateful, true) };
+    // which raw type each input carries (topologies may have two ingress types, possibly into different contexts)
+    let kinds: Vec<String> = (0..n).map(|_| match &topo { Some(t) if t.raws.len() > 1 && tape.chance(1, 2) => t.raws[1].clone(), _ => "Raw".to_string() }).collect();
+    let raw = |seq: i64| -> Event { Event::new(kinds[seq as usize].as_str()).with_field("seq", seq).with_field("v", seq % 5) };
+    rep.config = format!("contexts={} last_stage_stateful={} channel_capacity={} inputs={}{}", nctx, stateful, cap, n, if topo_mode { " generated-topology" } else { "" });
     rep.log(format!("config {} program={:?}", rep.config, src));
 
     reset_sched();
@@ -294,7 +383,7 @@ fn run_c26(batch: &str, tape: &mut Tape, rep: &mut Report) {
                 // a stateless stage emits exactly the event it dequeued: compare with the queue model, so that a
                 // message the model does not know about (duplicate, reordering) is caught at the step it surfaces
                 let stage = c.trim_start_matches('c').parse::<usize>().unwrap_or(0);
-                let stateless_stage = !(stateful && stage == nctx);
+                let stateless_stage = !topo_mode && !(stateful && stage == nctx);
                 if let (true, Msg::Ev(want)) = (stateless_stage, &m) {
                     let seen: Vec<i64> = out.iter().map(|e| e.get_int("seq").unwrap_or(-1)).collect();
                     if seen != vec![*want] {
@@ -329,7 +418,7 @@ fn run_c26(batch: &str, tape: &mut Tape, rep: &mut Report) {
     let _ = full_at_ingress;
 
     // reference: the same program without contexts, one engine
-    let plain = program(nctx, stateful, false);
+    let plain = match &topo { Some(t) => t.without_ctx.clone(), None => program(nctx, stateful, false) };
     let (tx, mut rx) = mpsc::channel(100_000);
     let mut e = Engine::new(tx);
     e.load(&varpulis_parser::parse(&plain).expect("plain")).expect("plain load");
@@ -356,6 +445,9 @@ fn run_c26(batch: &str, tape: &mut Tape, rep: &mut Report) {
         if w == g {
             continue;
         }
+        // a stream whose upstream chain contains a stream consumed from several contexts: the routing table holds
+        // one consuming context per stream name, so only one of those consumers is ever fed (known finding)
+        let sig_loss = if topo.as_ref().map(|t| t.behind_fanout.contains(stream)).unwrap_or(false) { "one-route-per-stream:consumers-in-several-contexts" } else { sig_loss };
         let mut ws = w.clone();
         let mut gs = g.clone();
         ws.sort();
@@ -380,6 +472,12 @@ fn run_c26(batch: &str, tape: &mut Tape, rep: &mut Report) {
         rep.probe("queue-full-at-forward");
     }
     rep.nontrivial = n >= 10 && got.len() >= 10;
+    if topo_mode {
+        if src.contains(" as up") { rep.probe("aliased-cross-stream-source"); }
+        if src.contains("merge(") { rep.probe("merge-source"); }
+        if src.contains("Raw2") { rep.probe("two-ingress-types"); }
+        if topo.as_ref().map(|t| !t.behind_fanout.is_empty()).unwrap_or(false) { rep.probe("stream-consumed-from-several-contexts"); }
+    }
 }
 
 // ───────────────────────────── C27 ─────────────────────────────
@@ -579,6 +677,9 @@ impl World for W3 {
                 batches: vec![
                     Batch { name: "small-queues", quick: 1_500, thorough: 60_000, faulty: true },
                     Batch { name: "large-queues", quick: 700, thorough: 30_000, faulty: false },
+                    Batch { name: "topologies", quick: 1_200, thorough: 50_000, faulty: true },
+                    Batch { name: "topologies-large-queues", quick: 800, thorough: 30_000, faulty: false },
+                    Batch { name: "topologies-fanout", quick: 500, thorough: 20_000, faulty: false },
                 ],
                 rule: "one run = a 2-3 context chain Raw -> A(c1) -> B(c2) [-> C(c3)] (stateless stages, last stage optionally a count window) on the real orchestrator with channel capacity 1-8 (control batch: 1000), 10-60 inputs injected singly or in bursts by a non-blocking producer that waits when the ingress queue is full; the tape chooses at every step whether the producer or which runnable context proceeds, and stalls a context for 2-12 steps so queues fill. Oracle: per-stream output sequence and multiset equal to the same program on one engine without contexts; every cross-context forward is traced with whether the target queue had room. Non-trivial = >= 10 inputs and >= 10 outputs; distinct = distinct decoded-trace hash (the decoded trace contains the full schedule).",
                 real: real.clone(),
